@@ -12,7 +12,8 @@ RULE = ("a case is an ORDERED PAIR of type descriptions (weight type, input "
         "part for which coverage.exhaustive=true is claimed): every ordered "
         "pair of the finite small lattice {fixed bits 1..5 x int 0..bits x "
         "signed/unsigned, po2 bits 1..5 (signed 2..5) x max_val_po2 in "
-        "{-1,2^-2,2^-1,1,2,4,16}, ternary, binary+-1, binary01, bernoulli, "
+        "{-1,2^-2,2^-1,1,2,4,16} and the non-power-of-two settings "
+        "{1.5,3,5,6,12} where they lie inside the exponent range, ternary, binary+-1, binary01, bernoulli, "
         "stochastic_binary, stochastic_ternary, quantized_relu(1,1), "
         "quantized_tanh/ulaw/leaky relu/unsigned quantized_bits of 2 and 4 "
         "bits} with ALL value pairs multiplied exactly (both tiers).  Part B (mode 'ext'): wide types "
@@ -29,6 +30,7 @@ ASSUMPTIONS = [
     "all arithmetic is exact (Fractions / integers scaled by powers of two); no tolerance anywhere",
     "fixed type value set = k*2^-(bits-sign-int_bits), k a two's-complement (signed) or unsigned code of `bits` bits",
     "po2 OPERAND value set = +-2^e, e in [-2^(n-1), 2^(n-1)-1], n = bits-sign, cut at max_val_po2 (DESIGN C16 decision i)",
+    "a max_val_po2 that is not a power of two is read as the qkeras quantizers apply it: |x| is clipped to max_value and log2 is then rounded to nearest, so the operand holds magnitudes up to 2^round(log2(max_value)) (1.5->2, 3->4, 5->4, 6->8, 12->16), which can exceed max_value; for power-of-two caps this is decision (i) unchanged",
     "po2 OUTPUT membership uses the exponent interval its reported fields encode: cap rounded up to a power of two and never below 2^0 (decision i); 0 counts as a member of every output type (decision ii)",
     "ternary / binary kinds are judged by their value sets {-1,0,1}, {-1,1}, {0,1}, not by bits/int_bits (decision iii)",
     "the product of the two most-negative values of two signed operands is exempt (the statement's two's-complement corner; DESIGN (b) applies it to every kind); how many exempt products would not fit is reported in coverage.info.exempt_minmin_overflow",
@@ -41,9 +43,9 @@ _IMPLS = ["FixedPointMultiplier", "Shifter", "Mux", "AndGate", "XorGate", "Adder
           "FloatingPointMultiplier"]
 REQUIRED_LABELS = {
     "quick": ["all", "ext", "hyp", "via:impl*impl", "via:factory*factory",
-              "float"] + ["impl:" + c for c in _IMPLS],
+              "float", "po2_cap_not_pow2"] + ["impl:" + c for c in _IMPLS],
     "thorough": ["all", "ext", "hyp", "via:impl*impl", "via:factory*factory",
-                 "float"] + ["impl:" + c for c in _IMPLS],
+                 "float", "po2_cap_not_pow2"] + ["impl:" + c for c in _IMPLS],
 }
 
 _T = {
@@ -229,6 +231,8 @@ def labels_of(case, st):
           "via:%s*%s" % (w.get("via", "impl"), x.get("via", "impl"))]
   if w["k"] == "float" or x["k"] == "float":
     labs.append("float")
+  if w.get("mv") is not None or x.get("mv") is not None:
+    labs.append("po2_cap_not_pow2")
   if st.get("exempt_overflow"):
     labs.append("exempt_minmin_overflow")
   return labs
@@ -284,7 +288,7 @@ def run(ctx):
       ctx.fail(f[0], f[1], case, f[2])
 
   # Part C: random pairs
-  ts = G.type_strategy(st_, 16)
+  ts = G.type_strategy(st_, 16, nonpo2_caps=True)
 
   @st_.composite
   def case_st(draw):
